@@ -109,6 +109,18 @@ class STuple(Value):
         self.kind = "tuple:" + ",".join(i.kind for i in self.items)
 
 
+class SSnap(Value):
+    """immutable snapshot of a list (length term, element array term): what a loop iterates over when its
+    iterable is a fresh temporary list"""
+    kind = "snapshot"
+
+    def __init__(self, n, elems, elemkind):
+        self.n = n
+        self.elems = elems
+        self.elemkind = elemkind
+        self.t = None
+
+
 class SMatch(Value):
     """A match object of the mark iterator: index into the ghost mark arrays."""
     kind = "match"
